@@ -179,6 +179,12 @@ def check_case(ctx, g, rng, model=None, limit=5.0, shuffle=True, prunes=(True, F
             ctx.count("empty_action_name")
         rename, unrename = (lambda a: m.get(a, a)), (lambda a: inv.get(a, a))
         ctx.count("case_only_renaming")
+    elif rng.random() < 0.4:
+        # names with format characters, surrounding whitespace, canonically equivalent but different spellings
+        m = gen.odd_label_map(g, rng)
+        inv = {v: k for k, v in m.items()}
+        rename, unrename = (lambda a: m.get(a, a)), (lambda a: inv.get(a, a))
+        ctx.count("odd_renaming")
     else:
         rename, unrename = _rename, _unrename
     h = gen.permute_game(g, perm, tperm_rng=rng if shuffle else None, rename=rename)
@@ -190,6 +196,18 @@ def check_case(ctx, g, rng, model=None, limit=5.0, shuffle=True, prunes=(True, F
         o1 = impl.solve(g, prune, limit=limit, want_nodes=False)
         o2 = impl.solve(h, prune, limit=limit, want_nodes=False)
         compare(ctx, g, h, perm, prune, o1, o2)
+        if n <= 60 and (g.get("_meta", {}).get("family") in ("decimal_sum",) or rng.random() < 0.15):
+            # "never changes whether the game is declared solvable": also when warnings are errors (-W error)
+            import warnings
+            with warnings.catch_warnings():
+                warnings.simplefilter("error")
+                w1 = impl.solve(g, prune, limit=limit, want_nodes=False)
+                w2 = impl.solve(h, prune, limit=limit, want_nodes=False)
+            if "Timeout" not in (w1["outcome"], w2["outcome"], o1["outcome"], o2["outcome"]) and \
+                    not (w1["outcome"] == o1["outcome"] and w2["outcome"] == o2["outcome"]):
+                ctx.violation("same-verdict-when-warnings-are-errors", {"game": gen.desc(g), "transformed": gen.desc(h), "perm": perm, "prune": prune},
+                              {"original": [o1["outcome"], w1["outcome"]], "transformed": [o2["outcome"], w2["outcome"]], "msg": w2.get("msg") or w1.get("msg")})
+                return
         if model is not None and n <= 400 and o2["outcome"] != "Timeout":
             model.add("solve", dict(wire.game_payload(h), prune=prune), expect=dict(o2, nodes=None),
                       inp={"game": gen.desc(h), "prune": prune} if n <= 30 else {"meta": g.get("_meta")},
@@ -273,5 +291,15 @@ def replay(ctx, viol):
     h = viol["input"]["transformed"]
     h["transition_list"] = [[tuple(t) for t in row] for row in h["transition_list"]]
     perm = viol["input"]["perm"]
+    if viol.get("clause") == "same-verdict-when-warnings-are-errors":
+        import warnings
+        prune = viol["input"].get("prune", True)
+        o1, o2 = impl.solve(g, prune, want_nodes=False), impl.solve(h, prune, want_nodes=False)
+        with warnings.catch_warnings():
+            warnings.simplefilter("error")
+            w1, w2 = impl.solve(g, prune, want_nodes=False), impl.solve(h, prune, want_nodes=False)
+        if not (w1["outcome"] == o1["outcome"] and w2["outcome"] == o2["outcome"]):
+            ctx.violation(viol["clause"], viol["input"], {"original": [o1["outcome"], w1["outcome"]], "transformed": [o2["outcome"], w2["outcome"]]})
+        return
     for prune in (True, False):
         compare(ctx, g, h, perm, prune, impl.solve(g, prune), impl.solve(h, prune))
